@@ -30,6 +30,7 @@ func C17(r *core.Run) {
 	rule175(r)
 	rule176(r)
 	rule106(r)
+	rule1013(r)
 }
 
 func rule171(r *core.Run) {
